@@ -4,7 +4,7 @@
    (instantiated over Z_p, p = 2^61-1, with pseudo-random scalars derived from the case) on them. *)
 From Coq Require Import List NArith Bool Arith.
 Import ListNotations.
-From VF Require Export C17.Model.
+From VF Require Export C17.Model C17.CredModel.
 Local Open Scope N_scope.
 
 (* ---------- Z_p instance of the field operations (p = 2^61 - 1) ---------- *)
@@ -35,6 +35,8 @@ Definition zH (l : list N) (nonce : N) : N :=
   zmix (fold_left (fun acc x => zred (acc * 1000003 + x + 1)) l 17) (nonce + 3).
 
 Definition zverify := verify N 0 1 zadd zmul zsub zopp N.eqb zH zgen.
+(* strict = true: verification through the BbsBlsSignatureProof2020 suite (exact statement count, fix 8e44881) *)
+Definition zverify_g := verify_gen N 0 1 zadd zmul zsub zopp N.eqb zH zgen.
 Definition zderive := derive N 0 1 zadd zmul zsub zopp zdiv N.eqb zH zgen.
 Definition zsign := sign N 0 1 zadd zmul zdiv zgen.
 
@@ -54,6 +56,10 @@ Inductive attack :=
    (* a structurally crafted proof (family fam, see harness/c17/forge.go) whose payload reveals cR ++ pads,
       presented with the messages sup *)
 
+(* credential level: rank positions, number of proof statements, the statements the issuer signed, the canonical
+   statements of the derived document, the statements the proof suite handed to its verifier *)
+Record cred_obs := { cr_rk : ranks; cr_np : nat; cr_signed : list stmt; cr_c0 : list stmt; cr_vdoc : list stmt }.
+
 Record case := {
   c_msgs : list N; c_R : list nat; c_nonce : N; c_key : N;
   c_payload : list N; c_len : N; c_proof : list N; c_intact : bool;
@@ -61,6 +67,8 @@ Record case := {
   c_sigpfx : list N; c_pfx : list N;      (* observed prefix of the signature / of the derived proof *)
   c_gd : N;                               (* generators h0, h_1.. pairwise distinct: 0 not observed, 1 yes, 2 no *)
   c_tr : list (list nat * nat * list N);   (* padding bits, extra messages, observed challenge-input labels *)
+  c_strict : bool;                        (* verified through the proof suite (credential level) *)
+  c_cred : option cred_obs;
   c_att : list (attack * verdict) }.
 
 Definition list_N_eqb (a b : list N) : bool :=
@@ -129,6 +137,27 @@ Definition forge (fam : N) (x : N) (pf : proof N) (e r2 : N) (bl z : nat -> N) (
 Fixpoint nodup_N (l : list N) : bool :=
   match l with [] => true | a :: r => negb (existsb (N.eqb a) r) && nodup_N r end.
 
+(* the credential level: the holder's statement -> index mapping gives the payload of the real derived proof; the suite
+   hands its verifier the proof statements followed by the document statements in the signer's order; after the
+   blank-node rewriting these are exactly the signed statements selected by the proof's mask, and as many *)
+Definition check_cred (n : nat) (payload : list N) (cr : cred_obs) : bool :=
+  let rk := cr_rk cr in
+  let S := cr_signed cr in
+  let np := cr_np cr in
+  let P := firstn np S in
+  let D := skipn np S in
+  Nat.eqb (length S) n && (np <=? n)%nat &&
+  sorted_by (skey rk) (cr_c0 cr) && sorted_by (skey rk) D && nodup_N (map (skey rk) D) &&
+  negb (existsb has_bnid S) &&
+  match holder_reveal np S (cr_c0 cr) with
+  | None => false
+  | Some R =>
+      match payload_bytes n R with Some pb => list_N_eqb pb payload | None => false end &&
+      stmts_eqb (cr_vdoc cr) (verifier_doc rk P (cr_c0 cr)) &&
+      stmts_eqb (verifier_messages (cr_vdoc cr)) (select (mask_of n R) S) &&
+      suite_count_ok (mask_of n R) (cr_vdoc cr)
+  end.
+
 Definition expected_len (n hidden : nat) : N :=
   N.of_nat (2 + bv_len n + 144 + 4 + 116 + 52 + 32 * (2 + hidden)).
 
@@ -148,6 +177,7 @@ Definition check_case (c : case) : bool :=
   | None => false
   end &&
   N.eqb (c_len c) (expected_len n hidden) &&
+  match c_cred c with Some cr => check_cred n (c_payload c) cr | None => true end &&
   Bool.eqb (c_intact c) (list_N_eqb (proof_after_verify Fixed (c_proof c)) (c_proof c)) &&
   (* the signature carries the signing key's output prefix; the wrapper's DeriveProof (only the signing key's
      primitive can derive) puts the same prefix in front of the proof *)
@@ -198,16 +228,16 @@ Definition check_case (c : case) : bool :=
           match a with
           | AHonest =>
               wrapped_verify_ks (c_ks c) (c_pfx c ++ c_payload c ++ [0; 0; 0; 0; 0])
-                             (fun i _ => if Nat.eqb i (c_signer c) then zverify Fixed x pf nonce rv else VReject)
-          | ASupplied l => zverify Fixed x pf nonce (map m_of l)
-          | ANonce k => zverify Fixed x pf (nonce_of (c_nonce c + 1 + k)) rv
-          | AKey => zverify Fixed (key_of (c_key c + 1000)) pf nonce rv
+                             (fun i _ => if Nat.eqb i (c_signer c) then zverify_g (c_strict c) Fixed x pf nonce rv else VReject)
+          | ASupplied l => zverify_g (c_strict c) Fixed x pf nonce (map m_of l)
+          | ANonce k => zverify_g (c_strict c) Fixed x pf (nonce_of (c_nonce c + 1 + k)) rv
+          | AKey => zverify_g (c_strict c) Fixed (key_of (c_key c + 1000)) pf nonce rv
           | APrefix pos xm =>
               (* the wrapper on (altered prefix ++ proof); the inner verifier would see the honest proof *)
               wrapped_verify_ks (c_ks c) (alter pos xm (c_pfx c) ++ c_payload c ++ [0; 0; 0; 0; 0])
-                             (fun i _ => if Nat.eqb i (c_signer c) then zverify Fixed x pf nonce rv else VReject)
+                             (fun i _ => if Nat.eqb i (c_signer c) then zverify_g (c_strict c) Fixed x pf nonce rv else VReject)
           | AForge fam cR sup pads =>
-              zverify Fixed x
+              zverify_g (c_strict c) Fixed x
                 (forge fam x pf (zmix seed 1) (zmix seed 4) (fun i => zmix seed (N.of_nat i + 10))
                        (fun i => zmix seed (N.of_nat i + 500)) nonce n cR pads (map m_of sup))
                 nonce (map m_of sup)
@@ -231,7 +261,7 @@ Definition check_case (c : case) : bool :=
                             p_r1 := diff_resp (g_resp (l_vc1 L)) (g_resp (l_vc1 L')) (p_r1 pf);
                             p_c2 := bump (negb (list_N_eqb (g_commit (l_vc2 L)) (g_commit (l_vc2 L')))) (p_c2 pf);
                             p_r2 := diff_resp (g_resp (l_vc2 L)) (g_resp (l_vc2 L')) (p_r2 pf) |} in
-                          zverify Fixed x pf' nonce rv
+                          zverify_g (c_strict c) Fixed x pf' nonce rv
                       end
                   end
               end
